@@ -27,7 +27,7 @@ type c20Phase struct {
 	Uses []c20Use `json:"uses"` // issued concurrently at the same virtual instant
 	// CacheRegions warms the cache for the table before the uses
 	CacheRegions string `json:"cache_regions,omitempty"`
-	// Fault after the phase: "" | reset | silent | fatal | multistop, on server index FaultServer
+	// Fault after the phase: "" | reset | silent | fatal | multistop | actionstop, on server index FaultServer
 	Fault       string `json:"fault,omitempty"`
 	FaultServer int    `json:"fault_server,omitempty"`
 	// Change of the layout after the phase (connections stay healthy): "" | split | merge | move
@@ -225,6 +225,26 @@ func c20RunInBubble(c c20Case) (out Outcome) {
 				}
 				time.Sleep(50 * time.Millisecond)
 			}
+		case "actionstop":
+			// a batch of two calls for one region of that server: the first is refused with an application
+			// exception, the second with RegionServerStoppedException - as results of single actions of one
+			// multi-response; the connection itself stays up
+			for _, r := range cl.TableRegions(c.Layout.Table) {
+				if r.Addr != addr {
+					continue
+				}
+				ma, mb := fmt.Sprintf("mkas%da", pi), fmt.Sprintf("mkas%db", pi)
+				cl.Lock()
+				cl.Script[ma] = []sim.Outcome{{Kind: "exc", Class: appExc, Stack: "no such column family"}}
+				cl.Script[mb] = []sim.Outcome{{Kind: "exc", Class: sim.RSStopped, Stack: "Server is stopping"}, {Kind: "ok"}}
+				cl.Unlock()
+				ca, _ := buildCall(context.Background(), c.Layout.Table, opSpec{Kind: "put", Key: r.Start, Marker: ma})
+				cb, _ := buildCall(context.Background(), c.Layout.Table, opSpec{Kind: "put", Key: r.Start, Marker: mb})
+				go client.SendBatch(context.Background(), []hrpc.Call{ca, cb})
+				anyFault = true
+				time.Sleep(50 * time.Millisecond)
+				break
+			}
 		case "fatal":
 			cl.SetServer(addr, func(s *sim.ServerState) { s.Fatal = sim.RSStopped })
 			anyFault = true
@@ -327,7 +347,7 @@ func c20Gen(t *rapid.T) c20Case {
 		if rapid.IntRange(0, 4).Draw(t, "cache") == 0 {
 			ph.CacheRegions = c.Layout.Table
 		}
-		ph.Fault = rapid.SampledFrom([]string{"", "", "", "reset", "silent", "fatal", "multistop"}).Draw(t, "fault")
+		ph.Fault = rapid.SampledFrom([]string{"", "", "", "reset", "silent", "fatal", "multistop", "actionstop"}).Draw(t, "fault")
 		ph.FaultServer = rapid.IntRange(0, 3).Draw(t, "faultserver")
 		if rapid.IntRange(0, 5).Draw(t, "metaslow") == 0 {
 			ph.MetaSlowMS = rapid.SampledFrom([]int{30500, 31000, 45000, 70000}).Draw(t, "metaslowms")
